@@ -13,6 +13,9 @@ from .kernel import EXN, TYPES, leaves
 if sys.version_info < (3, 11):  # pragma: no cover
     from exceptiongroup import BaseExceptionGroup
 
+import contextvars
+
+CUR_TASK: contextvars.ContextVar[int] = contextvars.ContextVar("verif_cur_task")
 TICK = 1.0
 
 
@@ -29,6 +32,18 @@ class FactoryRun:
     def log(self, *label: Any) -> None:
         self.trace.append({"l": list(label), "t": round(anyio.current_time() / TICK, 6)})
 
+    def exc_task(self, exc: BaseException, default: int) -> int:
+        # which task an exception came out of: written on the exception when it is raised - or, when several tasks raise
+        # one and the same object, remembered by the task itself (the handler is consulted in the task that failed)
+        return CUR_TASK.get(default) if self.case.get("shared_exc") else getattr(exc, "h", default)
+
+    def make_exc(self, idx: int) -> BaseException:
+        if not self.case.get("shared_exc"):
+            return EXN[idx]()
+        if not hasattr(self, "_excs"):
+            self._excs: dict[int, BaseException] = {}
+        return self._excs.setdefault(idx, EXN[idx]())
+
     def make_body(self, h: int) -> Any:
         from asphalt.core import current_context
 
@@ -38,6 +53,7 @@ class FactoryRun:
         delay = spec.get("startDelay")
 
         async def run_body(task_status: Any, called_in: Any = None) -> None:
+            CUR_TASK.set(h)
             ctx = current_context()
             parent = ctx.parent
             if called_in is not None and called_in is not ctx:
@@ -76,7 +92,7 @@ class FactoryRun:
                     if spec.get("startFails") is not None:
                         # fails while it is still starting: before it has reported started()
                         run.log("taskEnded", h, spec["startFails"])
-                        e = EXN[spec["startFails"]]()
+                        e = run.make_exc(spec["startFails"])
                         e.h = h
                         raise e
                     task_status.started(("started", h))
@@ -91,7 +107,7 @@ class FactoryRun:
                 if eoc is not None:
                     # the task's clean-up fails: an Exception escapes a task that was cancelled through its handle
                     ended(eoc)
-                    e = EXN[eoc]()
+                    e = run.make_exc(eoc)
                     e.h = h
                     raise e from None
                 ended(None)
@@ -99,7 +115,7 @@ class FactoryRun:
             exc = spec["beh"].get("exc")
             ended(exc)
             if exc is not None:
-                e = EXN[exc]()
+                e = run.make_exc(exc)
                 e.h = h
                 raise e
 
@@ -156,10 +172,10 @@ class FactoryRun:
 
     def handler(self, exc: Exception) -> bool:
         e = next((n for n, c in enumerate(EXN) if type(exc) is c), 99)
-        self.log("handlerCalled", getattr(exc, "h", -1), e)
+        self.log("handlerCalled", self.exc_task(exc, -1), e)
         # "a truthy value": not only True; anything else - None (a handler that only logs), 0, an empty string … - is not
         verdicts: list[Any] = [True, 1, "handled", [0]] if self.case["handler"] else [False, None, 0, "", [], 0.0]
-        return verdicts[getattr(exc, "h", 0) % len(verdicts)]      # type: ignore[no-any-return]
+        return verdicts[self.exc_task(exc, 0) % len(verdicts)]      # type: ignore[no-any-return]
 
     async def waiter(self, h: int) -> None:
         await self.handles[h].wait_finished()
